@@ -49,20 +49,7 @@ type liveChecker struct {
 func (lc *liveChecker) dirtyTargets(f *core.FuncInfo) map[types.Object]string {
 	info := f.Pkg.TypesInfo
 	dirty := map[types.Object]string{}
-	condTags := func(pkg *packages.Package, cond ast.Expr, branch bool) []flow.Tag {
-		c, ok := ast.Unparen(cond).(*ast.CallExpr)
-		if !ok {
-			return nil
-		}
-		sel, ok := ast.Unparen(c.Fun).(*ast.SelectorExpr)
-		if !ok || sel.Sel.Name != "IsClosed" {
-			return nil
-		}
-		if o := core.ObjOf(pkg.TypesInfo, sel.X); o != nil && !branch {
-			return []flow.Tag{"live:" + o.Name() + "@" + lc.w.Pos(o.Pos())}
-		}
-		return nil
-	}
+	condTags := lc.liveCond
 	liveTag := func(o types.Object) string { return "live:" + o.Name() + "@" + lc.w.Pos(o.Pos()) }
 	// parameters of a callback literal that a helper of the package only ever calls with a session it has just
 	// tested open (an iterator over the open sessions): known open inside the literal
@@ -752,20 +739,7 @@ func (lc *liveChecker) verify(f *core.FuncInfo) string {
 	info := f.Pkg.TypesInfo
 	dirty := lc.dirtyTargets(f)
 	reason := ""
-	condTags := func(pkg *packages.Package, cond ast.Expr, branch bool) []flow.Tag {
-		c, ok := ast.Unparen(cond).(*ast.CallExpr)
-		if !ok {
-			return nil
-		}
-		sel, ok := ast.Unparen(c.Fun).(*ast.SelectorExpr)
-		if !ok || sel.Sel.Name != "IsClosed" {
-			return nil
-		}
-		if o := core.ObjOf(pkg.TypesInfo, sel.X); o != nil && !branch {
-			return []flow.Tag{"live:" + o.Name() + "@" + lc.w.Pos(o.Pos())}
-		}
-		return nil
-	}
+	condTags := lc.liveCond
 	res := (&flow.Spec{W: lc.w, CondTags: condTags}).Analyze(f)
 	for _, ex := range res.Exits {
 		if len(ex.Results) == 0 {
@@ -837,6 +811,25 @@ func (lc *liveChecker) verify(f *core.FuncInfo) string {
 				if n > 0 {
 					break
 				}
+				// a function value handed back by a function of the package (`policyOf(kind)(sessions, xid)`): every
+				// function it can hand back is judged
+				if inner, isCall := ast.Unparen(x.Fun).(*ast.CallExpr); isCall {
+					if h := lc.w.Info(core.Callee(info, inner)); h != nil && h.Decl.Body != nil {
+						if ts := funcValuesReturned(h); len(ts) > 0 {
+							for _, t := range ts {
+								n++
+								if tg := lc.w.Info(t); tg == nil {
+									why = "returns the result of " + t.Name() + " (handed back by " + h.Obj.Name() + "), which is not analysable"
+								} else if sub := lc.verify(tg); sub != "" && why == "" {
+									why = "returns " + core.ShortKey(t) + "(...) through " + h.Obj.Name() + ", which " + sub
+								}
+							}
+						}
+					}
+				}
+				if n > 0 {
+					break
+				}
 			}
 			if g == nil {
 				why = "returns the result of " + core.ExprString(x.Fun) + ", which is not analysable"
@@ -856,6 +849,7 @@ func (lc *liveChecker) verify(f *core.FuncInfo) string {
 
 func checkC19(r *core.Run) {
 	r.Explain = "Decided statically: (C19.switch) Select dispatches each of the five policy constants to its own policy function; (C19.live) in every policy function (and the session manager's own fallback) each session that can be returned is nil, was tested !IsClosed() in the same invocation after it was last read from long-lived storage, comes from a collection filled only with such sessions, or is the result of a callee with that property; (C19.xid) the value handed to the xid extractor is the message body (an interface value), not an envelope type that is none of the asserted request types and has no Xid field; the XID policy compares ip:port of the xid with the session's remote address; (C19.announce) from the listener's OnOpen both the RegisterTMRequest and a RegisterRMRequest for the cached resources are reachable in the call graph. (C19.live, also) a policy's answer m[k] is a lookup that cannot miss: k is one of the keys stored into m in the same invocation; NOT decided: histories of sessions opening and closing between selections; what the coordinator does with the announcements."
+	r.Explain += " Round 8: (C19.switch, also) selectSession answers a session only after asking the configured load-balance policy."
 	r.Trusted = []string{"go/types, go/cfg", "getty Session.IsClosed"}
 	w := r.W
 	sel := r.Anchor("C19.switch", w.Func("pkg/remoting/loadbalance", "", "Select"), "loadbalance.Select")
@@ -870,12 +864,24 @@ func checkC19(r *core.Run) {
 			policyConsts = append(policyConsts, c)
 		}
 	}
-	tab, def := dispatchTable(w, sel, func(e ast.Expr) string {
+	label := func(e ast.Expr) string {
 		if c := core.ConstObj(info, e); c != nil {
 			return c.Name()
 		}
 		return ""
-	})
+	}
+	tab, def := dispatchTable(w, sel, label)
+	if len(tab) == 0 {
+		// the dispatch written in a function of the package that Select calls with the policy name
+		for _, cs := range w.Calls(sel) {
+			if g := w.Info(cs.Static); g != nil && g.Pkg == sel.Pkg && g.Decl.Body != nil && !cs.Iface {
+				if t2, d2 := dispatchTable(w, g, label); len(t2) > len(tab) {
+					tab, def = t2, d2
+					r.Fn(g)
+				}
+			}
+		}
+	}
 	var policies []*core.FuncInfo
 	calledIn := func(cc ast.Node) *core.FuncInfo {
 		var out *core.FuncInfo
@@ -901,6 +907,16 @@ func checkC19(r *core.Run) {
 			if c, ok := n.(*ast.CallExpr); ok {
 				if g := w.Info(core.Callee(info, c)); g != nil && g.Pkg.PkgPath == pLB {
 					out = g
+				}
+			}
+			// `return ThePolicy`: the dispatcher hands the policy function back to be called
+			if rs, ok := n.(*ast.ReturnStmt); ok && len(rs.Results) == 1 {
+				if id, ok := ast.Unparen(rs.Results[0]).(*ast.Ident); ok {
+					if fn, ok := info.Uses[id].(*types.Func); ok {
+						if g := w.Info(fn); g != nil && g.Pkg.PkgPath == pLB {
+							out = g
+						}
+					}
 				}
 			}
 			return true
@@ -937,6 +953,25 @@ func checkC19(r *core.Run) {
 		targets = append(targets, sm)
 	} else {
 		r.Anchor("C19.live", nil, "SessionManager.selectSession")
+	}
+	// the configured policy is asked first: no session is answered by the manager's own walk over the registry on
+	// a path on which loadbalance.Select was not called (a "nothing to balance" shortcut routes an xid-addressed
+	// request to whichever session the map yields first)
+	if sm := w.Func("pkg/remoting/getty", "SessionManager", "selectSession"); sm != nil && sel != nil {
+		res := (&flow.Spec{W: w, Depth: 0, Classify: func(pkg *packages.Package, call *ast.CallExpr, callee *types.Func) []flow.Tag {
+			if callee == sel.Obj {
+				return []flow.Tag{"select"}
+			}
+			return nil
+		}}).Analyze(sm)
+		for _, ex := range res.Exits {
+			if len(ex.Results) != 1 || isNilIdent(sm.Pkg.TypesInfo, ex.Results[0]) {
+				continue
+			}
+			r.Sites++
+			r.Check(ex.St.Has("select"), "C19.switch", core.ShortKey(sm.Obj)+" answers a session only after the configured policy was asked", w.Pos(ex.Pos), "loadbalance.Select called on every path to this return",
+				"a session is answered on a path that never asks the configured policy: with the XID policy a request that names its coordinator in the xid can go to another coordinator's session")
+		}
 	}
 	// (helpers of the policies that hand back sessions are judged where a policy uses what they hand back: a
 	// result returned as it is needs a helper that returns open sessions only, a result tested by the caller does
@@ -1292,4 +1327,139 @@ func c19Announce(r *core.Run) {
 	r.Check(constructs("RegisterRMRequest"), "C19.announce", "OnOpen announces the registered resources", w.Pos(onOpen.Decl.Pos()), "RegisterRMRequest for the cached resources is reachable from OnOpen",
 		"nothing reachable from OnOpen builds a RegisterRMRequest: resources are announced only when they are created (RMRemoting.RegisterResource), so after the connection to the coordinator is re-established phase-two requests for this client's branches no longer reach it")
 	_ = sort.Strings
+}
+
+// funcValuesReturned: the declared functions h can hand back as a function value — nil unless every return of h
+// is the name of one.
+func funcValuesReturned(h *core.FuncInfo) []*types.Func {
+	var out []*types.Func
+	ok := true
+	ast.Inspect(h.Decl.Body, func(n ast.Node) bool {
+		switch x := n.(type) {
+		case *ast.FuncLit:
+			return false
+		case *ast.ReturnStmt:
+			if len(x.Results) != 1 {
+				ok = false
+				return true
+			}
+			var id *ast.Ident
+			switch y := ast.Unparen(x.Results[0]).(type) {
+			case *ast.Ident:
+				id = y
+			case *ast.SelectorExpr:
+				id = y.Sel
+			}
+			if id == nil {
+				ok = false
+				return true
+			}
+			if fn, isFn := h.Pkg.TypesInfo.Uses[id].(*types.Func); isFn {
+				out = append(out, fn)
+			} else {
+				ok = false
+			}
+		}
+		return true
+	})
+	if !ok {
+		return nil
+	}
+	return out
+}
+
+// liveCond: what a branch condition tells about a session variable: `x.IsClosed()` false, or a predicate of the
+// package over x (releaseIfClosed(x), isOpen(x)) answering the value it only answers for a session it has just
+// seen open.
+func (lc *liveChecker) liveCond(pkg *packages.Package, cond ast.Expr, branch bool) []flow.Tag {
+	c, ok := ast.Unparen(cond).(*ast.CallExpr)
+	if !ok {
+		return nil
+	}
+	tag := func(o types.Object) []flow.Tag { return []flow.Tag{"live:" + o.Name() + "@" + lc.w.Pos(o.Pos())} }
+	if sel, ok := ast.Unparen(c.Fun).(*ast.SelectorExpr); ok && sel.Sel.Name == "IsClosed" {
+		if o := core.ObjOf(pkg.TypesInfo, sel.X); o != nil && !branch {
+			return tag(o)
+		}
+		return nil
+	}
+	h := lc.w.Info(core.Callee(pkg.TypesInfo, c))
+	if h == nil || h.Decl.Body == nil || h.Pkg != pkg {
+		return nil
+	}
+	sig := h.Obj.Type().(*types.Signature)
+	if sig.Results().Len() != 1 {
+		return nil
+	}
+	if b, ok := sig.Results().At(0).Type().Underlying().(*types.Basic); !ok || b.Kind() != types.Bool {
+		return nil
+	}
+	ps := paramObjs(h)
+	for i, a := range c.Args {
+		o := core.ObjOf(pkg.TypesInfo, a)
+		if o == nil || i >= len(ps) || !isSessionType(ps[i].Type()) {
+			continue
+		}
+		if lc.openWhen(h, ps[i], branch) {
+			return tag(o)
+		}
+	}
+	return nil
+}
+
+// openWhen: every exit of the predicate h that can answer `val` has seen its parameter p open.
+func (lc *liveChecker) openWhen(h *core.FuncInfo, p types.Object, val bool) bool {
+	key := [3]interface{}{h, p, val}
+	if lc.fed == nil {
+		lc.fed = map[[3]interface{}]bool{}
+	}
+	if v, ok := lc.fed[key]; ok {
+		return v
+	}
+	lc.fed[key] = false
+	info := h.Pkg.TypesInfo
+	live := "live:" + p.Name() + "@" + lc.w.Pos(p.Pos())
+	basic := func(pkg *packages.Package, cond ast.Expr, branch bool) []flow.Tag {
+		if c, ok := ast.Unparen(cond).(*ast.CallExpr); ok {
+			if sel, ok := ast.Unparen(c.Fun).(*ast.SelectorExpr); ok && sel.Sel.Name == "IsClosed" && !branch {
+				if o := core.ObjOf(pkg.TypesInfo, sel.X); o != nil {
+					return []flow.Tag{"live:" + o.Name() + "@" + lc.w.Pos(o.Pos())}
+				}
+			}
+		}
+		return nil
+	}
+	ok := true
+	n := 0
+	for _, ex := range (&flow.Spec{W: lc.w, Depth: 0, CondTags: basic}).Analyze(h).Exits {
+		if len(ex.Results) != 1 {
+			return false
+		}
+		n++
+		e := ast.Unparen(ex.Results[0])
+		if v := core.ConstVal(info, e); v != nil && v.Kind() == constant.Bool {
+			if constant.BoolVal(v) == val && !ex.St.Has(live) {
+				ok = false
+			}
+			continue
+		}
+		// `return p.IsClosed()` / `return !p.IsClosed()`
+		neg := false
+		if u, isU := e.(*ast.UnaryExpr); isU && u.Op == token.NOT {
+			neg, e = true, ast.Unparen(u.X)
+		}
+		if c, isC := e.(*ast.CallExpr); isC {
+			if sel, isS := ast.Unparen(c.Fun).(*ast.SelectorExpr); isS && sel.Sel.Name == "IsClosed" && core.ObjOf(info, sel.X) == p {
+				// answers val exactly when IsClosed() == (val != neg): open iff that is false
+				if (val != neg) == false {
+					continue
+				}
+			}
+		}
+		if !ex.St.Has(live) {
+			ok = false
+		}
+	}
+	lc.fed[key] = ok && n > 0
+	return ok && n > 0
 }
